@@ -9,4 +9,7 @@ pub mod syntax_tree;
 pub mod translating;
 pub(crate) mod verifying;
 
+#[cfg(feature = "verif")]
+pub mod verif;
+
 pub use command_line::procedures::main;
